@@ -199,6 +199,33 @@ func (n *normer) identLocal(id *ast.Ident, v *types.Var, usePos token.Pos, depth
 	}
 	if n.fn.Body != nil {
 		top := map[ast.Stmt]bool{}
+		// the statement lists that enclose the use: the function body and every nested block / case body
+		// around it.  A statement of one of them that ends before the use dominates the use.
+		var lists [][]ast.Stmt
+		ast.Inspect(n.fn.Body, func(m ast.Node) bool {
+			if m == nil || m.Pos() > usePos || usePos >= m.End() {
+				return m == nil || false
+			}
+			switch b := m.(type) {
+			case *ast.BlockStmt:
+				if b != n.fn.Body {
+					lists = append(lists, b.List)
+				}
+			case *ast.CaseClause:
+				lists = append(lists, b.Body)
+			case *ast.CommClause:
+				lists = append(lists, b.Body)
+			}
+			return true
+		})
+		for _, l := range lists {
+			for _, s := range l {
+				if s.End() <= usePos {
+					top[s] = true
+					consider(s, true)
+				}
+			}
+		}
 		for _, s := range n.fn.Body.List {
 			top[s] = true
 			consider(s, true)
